@@ -63,6 +63,11 @@ type c12Ctl struct {
 	overtook  bool
 	reachedX  chan struct{} // closed when the hold's writer reaches step X (caller-waits holds)
 	xDone     bool
+	// background work outside the recv..return bracket of a writer, and after Finalise has returned to the caller
+	liveG         map[int64]bool // goroutines that have announced write.recv and not yet write.return
+	finalised     bool           // set by the caller as soon as Finalise has returned
+	unbracketed   []string       // steps taken by a goroutine that is neither the caller nor a live writer
+	afterFinalise []string       // steps taken by a goroutine other than the caller after Finalise returned
 }
 
 func (c *c12Ctl) signalY(name string) {
@@ -83,11 +88,22 @@ func (c *c12Ctl) step(name string) {
 			c.nWriters++
 			c.writerOf[gid] = c.nWriters
 			c.liveWrite++
+			if c.liveG == nil {
+				c.liveG = map[int64]bool{}
+			}
+			c.liveG[gid] = true
 		}
 		w = c.writerOf[gid]
 		role = fmt.Sprint("writer", w)
+		if !c.liveG[gid] {
+			c.unbracketed = append(c.unbracketed, fmt.Sprintf("goroutine %d (%s): %s", gid, role, name))
+		}
+		if c.finalised {
+			c.afterFinalise = append(c.afterFinalise, fmt.Sprintf("goroutine %d (%s): %s", gid, role, name))
+		}
 		if name == "write.return" {
 			c.liveWrite--
+			delete(c.liveG, gid)
 		}
 	}
 	xname := name
@@ -192,12 +208,16 @@ type c12Sched struct {
 	Hold  *c12Hold    `json:"hold,omitempty"`
 	Sleep bool        `json:"random_sleeps"`
 	Procs int         `json:"gomaxprocs"`
+	// HoldMs: bound of the hold in milliseconds (0: the usual 25 ms). The long holds keep a background writer parked far
+	// longer than any wait a sorter might be tempted to give up on: "for every interleaving" knows no time limit.
+	HoldMs int `json:"hold_bounded_at_ms,omitempty"`
 }
+
+const c12LongHoldMs = 1200
 
 func c12Enumerate(quick bool) []c12Sched {
 	var out []c12Sched
 	wl := c12Workloads
-	_ = quick
 	for _, w := range wl {
 		for k := 1; k <= w.writers(); k++ {
 			for _, x := range c12Xs {
@@ -213,6 +233,18 @@ func c12Enumerate(quick bool) []c12Sched {
 			}
 		}
 	}
+	// long holds (appended, so that the list above keeps its order): the first background writer stays parked before its
+	// sync (thorough: also before it has created its file) until the caller's first Pull - which the caller cannot reach
+	// before Finalise has waited the writer out - i.e. for the full bound of 1.2 s
+	for i, w := range wl {
+		if quick && i >= 4 {
+			break
+		}
+		out = append(out, c12Sched{W: w, Hold: &c12Hold{Writer: 1, X: "write.sync", Y: "pull.first"}, Procs: 16, HoldMs: c12LongHoldMs})
+		if !quick {
+			out = append(out, c12Sched{W: w, Hold: &c12Hold{Writer: 1, X: "write.recv", Y: "pull.first"}, Procs: 16, HoldMs: c12LongHoldMs})
+		}
+	}
 	return out
 }
 
@@ -222,7 +254,7 @@ func init() {
 		Level: "exploration",
 		Rule: "one schedule per case on a concurrent-mode sorter (chunk 3..8, 1..4 full chunks, last chunk 0, 1 or c-1, unique values): (i) enumerated holds - each background writer parked at each of {recv, register, encode#1, encode#last, sync, return} until the caller reaches each of " +
 			"{hand-off of the next chunk, finalise.enter, finalise.lastwrite, finalise.seek, first Pull}, and inverted holds in which the caller is parked at {next hand-off, finalise.enter, finalise.lastwrite} until the writer has reached {register, encode#last, return} (all released after a bounded wait so the harness cannot create a deadlock); (ii) seeded random sleeps of 0-2 ms at every hook; (iii) hooks silent with GOMAXPROCS in {1,2,16}. " +
-			"Oracle: Finalise returned => every value pulled exactly once in order, and Finalise never reaches its read-back while a background writer is still between write.recv and write.return; race detector, panics and runtime deadlock detection through the child. Non-trivial = >=1 background writer; distinct = hash of the (goroutine role, step) event order",
+			"Oracle: Finalise returned => every value pulled exactly once in order, and Finalise never reaches its read-back while a background writer is still between write.recv and write.return; no step of the write path is taken by a goroutine other than the caller or a writer between its write.recv and write.return, nor by anyone but the caller after Finalise returned; a few holds last 1.2 s (Finalise must wait them out); race detector, panics and runtime deadlock detection through the child. Non-trivial = >=1 background writer; distinct = hash of the (goroutine role, step) event order",
 		Batches: func(t string) int {
 			if t == "thorough" {
 				return 16
@@ -235,7 +267,8 @@ func init() {
 		Case:        c12Case,
 		MinDistinct: func(t string) int { return 150 },
 		Floors: func(string) map[string]int64 {
-			return map[string]int64{"schedules_run": 900, "holds_parked": 500, "holds_released_by_caller": 100, "caller_holds_released_by_writer": 60, "random_sleep_schedules": 100, "plain_schedules": 100, "values_pulled": 5000, "hook_events": 20000}
+			return map[string]int64{"schedules_run": 900, "holds_parked": 500, "holds_released_by_caller": 100, "caller_holds_released_by_writer": 60, "random_sleep_schedules": 100, "plain_schedules": 100, "values_pulled": 5000, "hook_events": 20000,
+				"schedules_with_every_background_step_inside_a_writer_and_before_finalise_returned": 900, "long_holds_of_1200ms_waited_out_by_finalise": 3}
 		},
 		Assumptions: []string{"holds are placed only at the hook sites, which sit between critical sections; a hold ends when the caller reaches the named step or after a bounded wait (the wait only shapes which interleavings are explored, never a verdict)",
 			"deadlock is decided by the Go runtime's all-goroutines-asleep detector in the child (no timers are pending outside holds)"},
@@ -275,6 +308,10 @@ func c12Run(r *obs.Run, s c12Sched) {
 	if s.Sleep {
 		ctl.sleepRng = rand.New(rand.NewSource(rng.Int63()))
 	}
+	if s.HoldMs > 0 {
+		ctl.holdT = time.Duration(s.HoldMs) * time.Millisecond
+	}
+	goroutines := runtime.NumGoroutine()
 	r.Crumb(fmt.Sprintf("%+v hold=%+v values=%v", s, s.Hold, vals))
 	morass.VerifSetStep(ctl.step)
 	defer morass.VerifSetStep(nil)
@@ -305,8 +342,14 @@ func c12Run(r *obs.Run, s c12Sched) {
 	}
 	ferr := m.Finalise()
 	ctl.mu.Lock()
+	ctl.finalised = true // from here on no goroutine of the sorter has anything left to do
 	ctl.signalY("pull.first")
 	ctl.mu.Unlock()
+	// evidence only (a goroutine that has done its work may still be on its way out): goroutines of the process now,
+	// against the number before the sorter was made
+	if runtime.NumGoroutine() > goroutines {
+		r.Count("finalise_returns_with_more_goroutines_than_before_the_sorter", 1)
+	}
 	if ferr != nil {
 		fail("finalise-error", "Finalise returned "+ferr.Error()+" although nothing failed")
 		return
@@ -357,7 +400,23 @@ func c12Run(r *obs.Run, s c12Sched) {
 	}
 	overtook := ctl.overtook
 	events := append([]string(nil), ctl.events...)
+	unbracketed := append([]string(nil), ctl.unbracketed...)
+	afterFinalise := append([]string(nil), ctl.afterFinalise...)
 	ctl.mu.Unlock()
+	if len(afterFinalise) > 0 {
+		// "Finalise returns only once every pushed value is safely in the sorter": a goroutine other than the caller was
+		// still taking steps of the write path after Finalise had returned
+		w["events"], w["steps_after_finalise_returned"] = events, afterFinalise
+		fail("background-step-after-finalise", fmt.Sprintf("%d step(s) of the write path were taken by another goroutine after Finalise had returned to the caller, the first: %s", len(afterFinalise), afterFinalise[0]))
+		return
+	}
+	if len(unbracketed) > 0 {
+		// the writer's steps (receive run, register file, encode, sync, return buffer) all lie between its write.recv and its
+		// write.return, and Finalise waits for the return: a step taken outside that bracket is work Finalise does not wait for
+		w["events"], w["steps_outside_a_writer"] = events, unbracketed
+		fail("unbracketed-background-step", fmt.Sprintf("%d step(s) of the write path were taken by a goroutine that is neither the caller nor a background writer between its write.recv and write.return, the first: %s", len(unbracketed), unbracketed[0]))
+		return
+	}
 	if overtook {
 		// "Finalise returns only once every pushed value is safely in the sorter": it went on to read the run files
 		// back (or returned) while a background writer had not yet finished with its run
@@ -366,6 +425,10 @@ func c12Run(r *obs.Run, s c12Sched) {
 		return
 	}
 	r.Count("schedules_run", 1)
+	r.Count("schedules_with_every_background_step_inside_a_writer_and_before_finalise_returned", 1)
+	if s.HoldMs > 0 && ctl.timedOut {
+		r.Count("long_holds_of_1200ms_waited_out_by_finalise", 1)
+	}
 	switch {
 	case s.Hold != nil:
 		r.Count("hold_schedules", 1)
